@@ -73,6 +73,21 @@ ARGS = [
         "let seed{i} = r.next(); let n{i} = r.below(7) as u64; let mut it{i} = (0..n{i}).map(move |k| mix(seed{i}, k));", "CIterator::new(&mut it{i})",
         "let mut a{i} = a{i}; let take{i} = (pre % 9) as usize; let mut c{i} = 0u64; for _ in 0..take{i} { match a{i}.next() { Some(v) => c{i} = mix(c{i}, v), None => { c{i} = mix(c{i}, 0xE0F); break; } } } d = mix(d, c{i});",
         post="out = mix(out, it{i}.next().dg());", c_kind="citer"),
+    # the implementor uses the library's feeding helper; the count it reports must be the number of items it took from its source
+    Arg("callback_feed", "OpaqueCallback<u64>",
+        "let mut got{i}: Vec<u64> = vec![]; let stop{i} = r.below(6); let mut f{i} = |v: u64| { got{i}.push(v); got{i}.len() <= stop{i} };", "(&mut f{i}).into()",
+        "let n{i} = pre % 7; let mut pulled{i} = 0u64; let cnt{i} = ::cglue::callback::FeedCallback::feed_into((0..n{i}).map(|k| mix(pre, k)).inspect(|_| pulled{i} += 1), a{i}) as u64; "
+        "if cnt{i} != pulled{i} { self.sink.model.lock().unwrap().push(format!(\"feed_into reported {} items offered to the callback, {} were taken from the source\", cnt{i}, pulled{i})); } d = mix(d, cnt{i});",
+        post="out = mix(out, got{i}.dg());", c_kind="callback"),
+    # a source that is not fused (None in the middle), drained in rounds: what the implementor sees must be what the source yielded
+    Arg("citer_rounds", "CIterator<u64>",
+        "let seed{i} = r.next(); let srclog{i}: ::std::cell::RefCell<Vec<Option<u64>>> = Default::default(); let mut k{i} = 0u64; "
+        "let mut it{i} = ::std::iter::from_fn(|| { k{i} += 1; let v = if k{i} > 9 || mix(seed{i}, k{i}) % 3 == 0 { None } else { Some(mix(seed{i}, k{i} + 100)) }; srclog{i}.borrow_mut().push(v); v }); "
+        "let seen0{i} = sk.seen.lock().unwrap().len();", "CIterator::new(&mut it{i})",
+        "let mut a{i} = a{i}; for _ in 0..6 { let v = a{i}.next(); self.sink.seen.lock().unwrap().push(v); d = mix(d, v.dg()); }",
+        post="{ let seen: Vec<Option<u64>> = sk.seen.lock().unwrap()[seen0{i}..].to_vec(); let src = srclog{i}.borrow().clone(); "
+             "if seen != src { sk.model.lock().unwrap().push(format!(\"iterator argument: the source yielded {:?}, the implementor saw {:?}\", src, seen)); } out = mix(out, src.len() as u64); }",
+        c_kind="citer"),
     Arg("ptr_const", "*const u8", "let s{i}: Box<u8> = Box::new(r.next() as u8); pb.sent.push(&*s{i} as *const u8 as usize);", "&*s{i} as *const u8",
         "d = mix(d, unsafe { *a{i} } as u64); ad.push(a{i} as usize);", c_kind="ptr"),
     Arg("ptr_mut", "*mut u64", "let mut s{i}: Box<u64> = Box::new(r.edgy()); pb.sent.push(&*s{i} as *const u64 as usize);", "&mut *s{i} as *mut u64",
@@ -80,7 +95,7 @@ ARGS = [
 ]
 ARG = {a.key: a for a in ARGS}
 # shapes whose callee code needs the pre-state before the event is logged
-NEEDS_PRE = {"callback", "citer"}
+NEEDS_PRE = {"callback", "citer", "callback_feed"}
 
 
 class Ret:
